@@ -38,7 +38,7 @@ impl Prop for C05 {
     fn plan(&self, tier: Tier) -> Plan {
         let mut p = Plan::new(match tier {
             Tier::Quick => 15000,
-            Tier::Thorough => 40_000,
+            Tier::Thorough => 150_000,
         });
         p.workers = 12;
         p.cases_per_process = 400;
